@@ -444,6 +444,10 @@ class HashSeedEngine(Engine):
         extra: List[str] = []
         if rng.random() < 0.3:
             extra += ["--hmmdetection-strictness", rng.choice(["strict", "loose"])]
+        # transcription factor binding site search: pure python (MOODS), scans the sequence itself
+        if rng.random() < 0.3:
+            extra += ["--tfbs", "--tfbs-pvalue", rng.choice(["0.00001", "0.0005", "0.002"]), "--tfbs-range",
+                      rng.choice(["50", "120"])]
         # HMMer based domain annotation (Pfam) of clusters / the whole record, and the GO term mapping on top
         pfam_hits = []
         if rng.random() < 0.5:
